@@ -140,7 +140,7 @@ def run_life(rep, repo, tier):
     rep.assumptions += ['lifetime rules: element special members and operator new do not throw (only the normal edge of an '
                         'invoke is followed)', 'lifetime rules: iterator arguments point into the vector at positions <= '
                         'size(); operator[]/at below size(); front/back/pop_back on a non-empty vector']
-    sz = 3 if tier != 'thorough' else 5
+    sz = 4 if tier != 'thorough' else 7
     mod = compile_ir(os.path.join(WIT, 'w_life_vector.cpp'), repo, exceptions=True)
     label = 'igris::vector<VTr> sizes 0..%d' % sz
     rep.units.append('witness/w_life_vector.cpp -> igris/container/vector.h, igris/util/ctrdtr.h')
@@ -165,7 +165,7 @@ def run_life(rep, repo, tier):
     rep.floor(RULE + ':event', 40)
     rep.floor(RULE + ':return', 90)
     rep.floor(RULE + ':block', 60)
-    if st['partitions'] < (1500 if tier != 'thorough' else 6000):
+    if st['partitions'] < (2500 if tier != 'thorough' else 20000):
         raise AnalysisBroken('lifetime rules: only %d (member, partition) pairs analysed' % st['partitions'])
 
 
